@@ -50,7 +50,10 @@ Record config := mkConfig {
   snap_reshape : bool;       (* COO.reshape iterates a snapshot of the deque *)
   maxlen : nat;              (* deque(maxlen=...) *)
   csc_via_csr : bool;        (* last stage of tocsc is self.tocsr().tocsc() *)
-  todense_fresh : bool;      (* todense hands the caller a freshly allocated array (never a view of the operand) *)
+  buffers_fresh : bool;      (* every buffer that is written in place after a call produced it is a fresh allocation:
+                                the array todense/maybe_densify/__array__ hand to the caller (never a view of the
+                                operand), and the array _grouped_reduce hands to SparseArray.reduce, which applies
+                                its fill correction to it in place (never the operand's data) *)
   memo_clear_bound : option nat   (* None: the dtype memo never removes an entry (what the code does);
                                      Some n: a miss clears the dict when it holds >= n entries (a variant) *)
 }.
@@ -63,7 +66,7 @@ Definition all_snapshot (cfg : config) : bool := snap_transpose cfg && snap_resh
 (* what /repo's source says now *)
 Definition src_config : config :=
   mkConfig transpose_lookup_snapshot reshape_lookup_snapshot cache_maxlen tocsc_final_via_tocsr
-           (todense_result_fresh && densify_paths_via_todense)
+           (todense_result_fresh && densify_paths_via_todense && grouped_reduce_result_fresh)
            (if memo_no_deletion then None else Some 0%nat).
 
 (* ---------------------------------------------------------------- shared state *)
@@ -106,7 +109,9 @@ Inductive call :=
 | CAttr (arr : Z) (csc : bool)       (* x.tocsr() / x.tocsc(), x cache-enabled *)
 | CMemo (key : Z)                    (* a _memoize_dtype-wrapped kernel factory applied to a dtype tuple *)
 | CPure (key : Z)                    (* any other read-only operation: no shared mutable state *)
-| CDenseWrite (key : Z).             (* d = x.todense() (or maybe_densify / np.asarray) of a shared operand, followed by
+| CDenseWrite (key : Z).             (* produce a buffer from a shared operand, then write into it in place: either
+                                        the library itself (reduce: data = _grouped_reduce(...); data[mask] = ...) or
+                                        d = x.todense() (or maybe_densify / np.asarray) of a shared operand, followed by
                                         the CALLER writing into d in place (d -= c): legitimate, d is the caller's *)
 
 Definition ckey (c : call) : Z :=
@@ -318,7 +323,7 @@ Section Step.
     (* ---- everything else *)
     | PpCompute k => (sh, ret t (CPure k) (Ok (f k)))
     (* ---- densify, then the caller post-processes ITS result in place *)
-    | PdDense k => (sh, goto t (PdWrite k (negb (todense_fresh cfg))))
+    | PdDense k => (sh, goto t (PdWrite k (negb (buffers_fresh cfg))))
     | PdWrite k view => (if view then write_operands sh (f k) else sh, ret t (CDenseWrite k) (Ok (f k)))
     end.
 
@@ -410,5 +415,5 @@ Definition d13_witness : list (list call) * list nat := (d13_threads d13_site, d
 
 (* the protocol as it would be after the candidate fix (iterate a snapshot in both methods) *)
 Definition fixed_config : config :=
-  mkConfig true true (maxlen src_config) (csc_via_csr src_config) (todense_fresh src_config)
+  mkConfig true true (maxlen src_config) (csc_via_csr src_config) (buffers_fresh src_config)
            (memo_clear_bound src_config).
